@@ -11,7 +11,7 @@ for lf in sorted(glob.glob(os.path.join(ROOT, 'seeded', 'logs', '*.txt'))):
             cur = m.group(1); logs.setdefault(cur, {}); continue
         m = re.match(r'(C\d+): (DETECTED|MISSED|TOOL)\s*(.*)', line)
         if m and cur:
-            logs[cur][m.group(1)] = {'verdict': m.group(2), 'flagged': m.group(3).strip(), 'log': os.path.basename(lf)}
+            logs[cur].setdefault(m.group(1), []).append({'verdict': m.group(2), 'flagged': m.group(3).strip(), 'log': os.path.basename(lf)})
 for d in sorted(glob.glob(os.path.join(ROOT, 'seeded', '*'))):
     name = os.path.basename(d)
     if name == 'logs' or not os.path.isdir(d):
@@ -29,10 +29,11 @@ for d in sorted(glob.glob(os.path.join(ROOT, 'seeded', '*'))):
             c = json.load(open(os.path.join(d, 'confirm.json')))
             meta['confirmed_by_me'] = {k: c.get(k) for k in ('confirmed', 'suite_with_change', 'demo_with_change', 'demo_without_change')}
             meta['what_i_ran'] = 'bin/confirm_seed <scratch worktree> patch.diff demo.rs  (git apply; cargo test --offline; cargo test --offline --test demo with and without the change)'
-    meta['checks'] = logs.get(name, {})
+    meta['check_runs'] = logs.get(name, {})   # per property, in chronological order (later logs = after strengthening)
+    meta['final'] = {p: runs[-1]['verdict'] for p, runs in logs.get(name, {}).items()}
     meta['how_run'] = 'bin/seedrun seeded/%s/patch.diff <properties>   (git -C /repo apply; bin/verif <P>; git -C /repo checkout -- .)' % name
     json.dump(meta, open(os.path.join(d, 'meta.json'), 'w'), indent=1)
 rows = []
 for name in sorted(logs):
-    rows.append((name, ', '.join(f'{p}:{v["verdict"]}' for p, v in logs[name].items())))
+    rows.append((name, ', '.join(f'{p}:' + '>'.join(r['verdict'] for r in v) for p, v in logs[name].items())))
 for r in rows: print('%-40s %s' % r)
